@@ -256,6 +256,72 @@ func c04Run(w *core.W) {
 			}
 		}
 	}
+	// loop variables are ordinary variables of the function: a for statement with 1..3 variables, each of which is a
+	// parameter, a local assigned before the loop, or a new name, followed by new locals assigned in the body and after
+	// the loop. Every variable is tagged and read (loop variables inside the body only); none may share a cell.
+	w.Family("for-variable-slots")
+	{
+		kinds := []string{"param", "local", "new"}
+		its := []string{"elems([\"ia\", \"ib\"])", "elems([\"ja\", \"jb\"])", "elems([\"ka\", \"kb\"])"}
+		for np := 0; np <= 2; np++ {
+			for nl := 0; nl <= 2; nl++ {
+				for nv := 1; nv <= 3; nv++ {
+					n := 1
+					for i := 0; i < nv; i++ {
+						n *= 3
+					}
+					for code := 0; code < n; code++ {
+						params := []string{"pa", "pb"}[:np]
+						locals := []string{"la", "lb"}[:nl]
+						vars, usedP, usedL, ok := []string{}, 0, 0, true
+						c := code
+						for i := 0; i < nv; i++ {
+							switch kinds[c%3] {
+							case "param":
+								if usedP >= np {
+									ok = false
+								} else {
+									vars = append(vars, params[usedP])
+									usedP++
+								}
+							case "local":
+								if usedL >= nl {
+									ok = false
+								} else {
+									vars = append(vars, locals[usedL])
+									usedL++
+								}
+							default:
+								vars = append(vars, []string{"va", "vb", "vc"}[i])
+							}
+							c /= 3
+						}
+						if !ok {
+							continue
+						}
+						for _, nested := range []bool{false, true} {
+							var b strings.Builder
+							b.WriteString("f = (" + strings.Join(params, ", ") + ") -> {\n  acc = []\n")
+							for _, l := range locals {
+								b.WriteString("  " + l + " = \"" + l + "\"\n")
+							}
+							b.WriteString("  for " + strings.Join(vars, ", ") + " <- " + strings.Join(its[:nv], ", ") + " {\n    ta = \"ta\"\n")
+							if nested {
+								b.WriteString("    for wa <- elems([\"wa\"]) {\n      tb = \"tb\"\n      acc = acc + [[wa, tb, " + strings.Join(vars, ", ") + "]]\n    }\n")
+							}
+							b.WriteString("    acc = acc + [[ta, " + strings.Join(vars, ", ") + "]]\n  }\n  tc = \"tc\"\n")
+							b.WriteString("  acc + [[tc" + strings.Join(append([]string{""}, append(append([]string{}, params[usedP:]...), locals[usedL:]...)...), ", ") + "]]\n}")
+							args := []string{"\"pa\"", "\"pb\""}[:np]
+							call := "f(" + strings.Join(args, ", ") + ")"
+							if !emit([]string{b.String(), call, "[" + call + ", " + call + "]"}) {
+								return
+							}
+						}
+					}
+				}
+			}
+		}
+	}
 	w.Family("recursive-definers")
 	for _, depth := range []int{3, 50, 200} {
 		for _, body := range []string{
